@@ -3,10 +3,10 @@ CONSTANTS
   NPaths = 3
   Contents = {"ClsDoc", "ClsPlain", "ClsField", "UseFoo", "ClsDoc2", "GInt"}
   Ops = {"update", "reindex"}
-  MaxSteps = 5
+  MaxSteps = 4
   EditDist = 1
   Batch = FALSE
-  EmitSel = "all"
+  EmitSel = "same"
 VIEW View
 INVARIANTS ReindexIsIdeal NoLeak C08_Model Emit
 ACTION_CONSTRAINT EmitEdge
